@@ -1,5 +1,6 @@
 import TddaVerif.Drv.Util
 import TddaVerif.Model.Flags
+import TddaVerif.Model.Applicable
 import TddaVerif.Generated.Flags
 open Lean TddaVerif.Drv TddaVerif.Flags
 
@@ -28,6 +29,11 @@ def handle (op : String) (j : Json) : Option (R Json) :=
       | .exit0 => pure (Json.str "exit0")
       | .reject => pure (Json.str "reject")
       | .run ps => pure (Json.mkObj (ps.map (fun kv => (kv.1, pvalJson kv.2))))
+  | "c17.applicable" => some do
+      let argv ← asList asChars (← fld j "argv")
+      pure (Json.mkObj [
+        ("applicable", Json.bool (TddaVerif.Applicable.applicable TddaVerif.Generated.Flags.applicableExts argv)),
+        ("exts", ofList (fun a => ofChars (TddaVerif.Applicable.splitextExt a)) argv)])
   | _ => none
 
 end TddaVerif.Drv.C17
